@@ -105,7 +105,9 @@ CONFIG["C20"] = dict(
 )
 
 CONFIG["C04"] = dict(
-    level_text="The Lean model of text/scanner + pkg/dbc (Model/TextScanner.lean, Model/DbcParse.lean) is an executable function-by-function transcription of the parser; kernel-checked theorems (Props/C04.lean) cover the token-level facts the round trip rests on; the faithful-read-back property itself is decided per run by comparing, for grammar-derived files (all 16 kinds, 4 layout modes, positions), the real parser's definitions with the AST the text was printed from (oracle independent of the parser) and with the Lean model.",
+    modules=["CanVerif.Props.C04", "CanVerif.Bridge.MsgIdGo", "CanVerif.Props.C04Code"],
+    t2_modules=["CanVerif.Bridge.MsgIdGo", "CanVerif.Props.C04Code"],
+    level_text="The Lean model of text/scanner + pkg/dbc (Model/TextScanner.lean, Model/DbcParse.lean) is an executable function-by-function transcription of the parser; kernel-checked theorems (Props/C04.lean) cover the token-level facts the round trip rests on; the message-ID functions of pkg/dbc/messageid.go (IsExtended, ToCAN, Validate) are additionally translated from the working tree on every run (T1) and proved equal to the model's for every 32-bit ID (Bridge/MsgIdGo.lean, Props/C04Code.lean); the faithful-read-back property itself is decided per run by comparing, for grammar-derived files (all 16 kinds, 4 layout modes, positions), the real parser's definitions with the AST the text was printed from (oracle independent of the parser) and with the Lean model.",
     level_note="Partial proof: C04_roundtrip over all ASTs x layouts is not proved (stated in DESIGN.md); proved are the scanner/strconv lemmas in Props/C04.lean. text/scanner, strconv and unicode are modelled (validated by correspondence on every run; unicode tables regenerated from the toolchain and compared).",
     level="proof",
     trivial=r"^(ok 0 ;; -)$",
@@ -132,9 +134,10 @@ CONFIG["C18"] = dict(
 )
 
 CONFIG["C05"] = dict(
-    modules=["CanVerif.Props.C05", "CanVerif.Props.C05Order", "CanVerif.Props.C05Canon", "CanVerif.Props.C05Inner"],
+    modules=["CanVerif.Props.C05", "CanVerif.Props.C05Order", "CanVerif.Props.C05Canon", "CanVerif.Props.C05Inner", "CanVerif.Bridge.MsgIdGo", "CanVerif.Props.C04Code"],
+    t2_modules=["CanVerif.Bridge.MsgIdGo", "CanVerif.Props.C04Code"],
     level_text="Kernel-checked Lean theorems (Props/C05.lean, Props/C05Order.lean): for definition lists with distinct stripped IDs, distinct signal names per message, distinct node names, at most one VERSION and metadata about pairwise different (kind, object, attribute), every permutation of the definitions compiles to the same database (metadata attachment is a pointwise update under unique keys, updates about different things commute, sorting permutations with distinct keys is unique); the signal comparator is a strict weak order that separates distinct (start, multiplexer value) keys, the sort returns a sorted permutation, and sorted permutations with pairwise distinct keys are unique — so the canonical order does not depend on the input order nor on the sorting algorithm. The denotation (every field as written, one warning per dangling reference, nothing attached) is decided on every run: files of the compilable class are generated together with the database they denote (computed by the generator, independently of parser and compiler), and the original plus its class permutations (message order, signal order, node order, metadata order) are compiled by the real generate.Compile and by the Lean model and compared with that expected database and warning multiset.",
-    level_note="Proof for the model of compile (collect, addMetadata, sortDescriptors): order invariance of the compiled database under any permutation of the definition list in the class (C05_order_invariant); reordering inside definitions -- the signals of a BO_, the names of a BU_, the pairs of a VAL_ -- does not change the compiled database either (C05_inner_order_invariant, Props/C05Inner.lean: collect and every metadata step respect 'equal up to inner orders', the final sort erases the rest under pairwise distinct sort keys, C05_canonical), and the two compose (C05_any_order); not proved: the multiset of warnings, and 'compile = denote' as a single statement (decided per run against the independent expected database). sort.Slice is trusted to return a sorted permutation.",
+    level_note="Proof for the model of compile (collect, addMetadata, sortDescriptors): order invariance of the compiled database under any permutation of the definition list in the class (C05_order_invariant); reordering inside definitions -- the signals of a BO_, the names of a BU_, the pairs of a VAL_ -- does not change the compiled database either (C05_inner_order_invariant, Props/C05Inner.lean: collect and every metadata step respect 'equal up to inner orders', the final sort erases the rest under pairwise distinct sort keys, C05_canonical), and the two compose (C05_any_order); not proved: the multiset of warnings, and 'compile = denote' as a single statement (decided per run against the independent expected database). sort.Slice is trusted to return a sorted permutation. MessageID.ToCAN / IsExtended are tied by T1 (translated on every run, proved equal to the model for every 32-bit ID; bv_decide axioms listed under coverage.axioms).",
     level="proof",
     trivial=r"^(parse-error|v=- ;; W -)$",
     rule="files of DESIGN.md 4.2 from harness/internal/ops/compile.go, each rendered in original and permuted orders; non-trivial = the file compiles to a non-empty database",
@@ -260,7 +263,7 @@ def _go2lean(work):
     return ""
 
 
-PRE_PROVE = {"C13": _extract_runner, "C01": _go2lean, "C02": _go2lean, "C17": _go2lean, "C08": _go2lean, "C06": _go2lean}
+PRE_PROVE = {"C13": _extract_runner, "C01": _go2lean, "C02": _go2lean, "C17": _go2lean, "C08": _go2lean, "C06": _go2lean, "C04": _go2lean, "C05": _go2lean}
 def _unicode_tie(work, impl):
     """the committed unicode tables equal what the toolchain's unicode package says now"""
     import subprocess, os
